@@ -283,6 +283,11 @@ class Ledger:
         if q == "SizeConstraintList.assert_done" and s.kind == "assert":
             ok = self.final_checks_after_closes()
             return ("typestate", "C03-R1: every registered region is closed before the final sanity check") if ok else None
+        # ---- a walker's region list always comes from the dispatcher
+        if s.kind == "idiom:iterate-optional" and s.detail == "size_constraints" and q in self.roles.walkers:
+            ok = self.region_list_always_supplied(q)
+            return ("callsites", "the walker is entered through the dispatcher only, which replaces a missing region list by a "
+                    "fresh one and hands it on (C03-R4)") if ok else None
         # ---- is_parameter_encryption
         if q == "is_parameter_encryption":
             if s.kind == "assert":
@@ -523,6 +528,22 @@ class Ledger:
                     elif e.kind == "final_check" and not reg <= closed:
                         return False
         return True
+
+    def region_list_always_supplied(self, q):
+        disp = self.roles.dispatcher
+        dflt = [st for st in disp.body if isinstance(st, ast.If) and norm(st.test) == "size_constraints is None"
+                and len(st.body) == 1 and norm(st.body[0]) == "size_constraints = SizeConstraintList()"]
+        if len(dflt) != 1:
+            return False
+        n = 0
+        for name, fn in self.roles.funcs.items():
+            for c in walk_no_nested(fn):
+                if isinstance(c, ast.Call) and call_name(c) == q:
+                    k = kwarg(c, "size_constraints")
+                    if fn is not disp or not (isinstance(k, ast.Name) and k.id == "size_constraints"):
+                        return False
+                    n += 1
+        return n >= 1
 
     def penc_callsites_exclusive(self):
         n = 0
